@@ -292,7 +292,7 @@ INCLUDE_TEXT = "gInc = 7\nsystemLog('inc')\n"
 
 
 def fixed_globals():
-    return {'ga': 1.0, 'gb': 2.5, 'gc': None, 'gd': True, 'garr': [1.0, 2.0, 3.0]}
+    return {'ga': 1.0, 'gb': 2.5, 'gc': None, 'gd': True, 'garr': [1.0, 2.0, 3.0], 'cnt': 0.0, 'x': 0.0, 'a': 0.0}
 
 
 def canon_value(v, depth=0):
@@ -634,9 +634,16 @@ class SrcGen:
 
     def script(self):
         r = self.rng
+        defined = []
         for _ in range(r.randint(0, 9)):
             if r.random() < 0.3:
                 self.function()
+                defined.append(self.lines[-1] and [ln for ln in self.lines if ln.lstrip().startswith(('function ', 'async function '))][-1])
+                # call the function right after its definition, so that its body is exercised by the semantic oracle
+                if r.random() < 0.7:
+                    name = defined[-1].split('function ')[1].split('(')[0]
+                    args = ', '.join(r.choice(NUMS + ['garr', 'ga', 'fnB']) for _ in range(r.randint(0, 3)))
+                    self.lines.append(f'systemLog({name}({args}))')
             else:
                 self.stmt([], 0, False, False)
         return '\n'.join(self.lines) + '\n'
@@ -727,7 +734,16 @@ class JumpGen:
         return out
 
     def model(self):
-        return {'statements': self.statements(self.rng.randint(0, 12), False)}
+        r = self.rng
+        out = []
+        for st in self.statements(r.randint(0, 12), False):
+            out.append(st)
+            if 'function' in st and r.random() < 0.6:
+                # call the function right after its definition, so that its body is exercised by the semantic oracle
+                args = [r.choice([{'number': 1.0}, {'number': 0.0}, {'variable': 'garr'}, {'variable': 'fnB'}]) for _ in range(r.randint(0, 3))]
+                out.append({'expr': {'expr': {'function': {'name': 'systemLog', 'args': [
+                    {'function': {'name': st['function']['name'], 'args': args}}]}}}})
+        return {'statements': out}
 
 
 # ---------------------------------------------------------------------------------------------------------------------
